@@ -418,7 +418,7 @@ func runC13(c C13Case, cs *kit.CaseStats) (err error) {
 	if len(out) != len(wantIdx) {
 		return fmt.Errorf("%s: returned %d transactions, expected the %d that are not confirmed on the path", where, len(out), len(wantIdx))
 	}
-	ephConfirmed := false
+	ephConfirmed, spentAtTarget := false, false
 	for k, i := range wantIdx {
 		if out[k].ID() != set[i].ID() {
 			return fmt.Errorf("%s: result[%d] is %v, expected input[%d] = %v (order must be kept)", where, k, out[k].ID(), i, set[i].ID())
@@ -431,11 +431,19 @@ func runC13(c C13Case, cs *kit.CaseStats) (err error) {
 		eachInput(&out[k], func(id types.Hash256, se *types.StateElement) {
 			defer func() { pos++ }()
 			want, live := expectElement(to.Ledger, id)
-			if !live {
-				return // spent on the path or still created inside the set
-			}
 			if createdInSet[id] {
 				return
+			}
+			if !live {
+				// spent on the target chain by another transaction: the leaf is
+				// still in the accumulator (spent flag set) and the statement
+				// speaks of every input, so the returned element must name it
+				sp, ok := to.Ledger.Spent[id]
+				if !ok {
+					return
+				}
+				want = sp
+				spentAtTarget = true
 			}
 			if origSE[pos].LeafIndex == types.UnassignedLeafIndex {
 				ephConfirmed = true
@@ -460,6 +468,10 @@ func runC13(c C13Case, cs *kit.CaseStats) (err error) {
 	}
 	if ephConfirmed {
 		cs.Class("ephemeral-input-confirmed-on-path")
+		cs.NonTrivial()
+	}
+	if spentAtTarget {
+		cs.Class("input-spent-by-another-transaction-at-target:proof-compared")
 		cs.NonTrivial()
 	}
 	if len(wantIdx) < len(set) {
@@ -601,6 +613,50 @@ func runC13(c C13Case, cs *kit.CaseStats) (err error) {
 			}
 			if len(got) == 0 || got[len(got)-1].ID() != target.ID() {
 				return fmt.Errorf("V2TransactionSet: the last element is not the requested transaction")
+			}
+			// the same request with one proof of the caller's transaction broken
+			// (a hash flipped, or the leaf index moved to the sibling): invalid
+			// proofs are rejected with an error, whatever the basis - also when
+			// it is the tip itself and there is no path to walk
+			for variant := 1; variant <= 2; variant++ {
+				bad := target.DeepCopy()
+				done := false
+				for j := range bad.SiacoinInputs {
+					se := &bad.SiacoinInputs[j].Parent.StateElement
+					if se.LeafIndex == types.UnassignedLeafIndex || done {
+						continue
+					}
+					if variant == 1 && len(se.MerkleProof) > 0 {
+						se.MerkleProof[0][0] ^= 1
+						done = true
+					} else if variant == 2 {
+						se.LeafIndex ^= 1
+						done = true
+					}
+				}
+				if !done {
+					continue
+				}
+				var berr error
+				func() {
+					defer func() {
+						if r := recover(); r != nil {
+							berr = fmt.Errorf("panicked: %v", r)
+						}
+					}()
+					_, bgot, e := node.CM.V2TransactionSet(a.basis, bad)
+					if e == nil {
+						berr = fmt.Errorf("returned %d transactions and no error", len(bgot))
+					}
+				}()
+				if berr != nil {
+					return fmt.Errorf("V2TransactionSet(basis %v, tip %v) of pooled %v with a broken proof (variant %d: 1 hash flipped, 2 leaf index moved): %v", a.basis, tip.Index(), target.ID(), variant, berr)
+				}
+				if a.basis == tip.Index() {
+					cs.Class("broadcast-set-asked-with-broken-proof:basis=tip:refused")
+				} else {
+					cs.Class("broadcast-set-asked-with-broken-proof:stale-basis:refused")
+				}
 			}
 			created := map[types.Hash256]bool{}
 			hasParent := false
